@@ -173,11 +173,20 @@ class AssignValues(Scenario):
         from geoh5py.workspace import Workspace
         from geoh5py.objects import Points
         ws = Workspace()
-        obj = Points.create(ws, vertices=real_np.zeros((n, 3)))
+        if kind == "points":
+            obj = Points.create(ws, vertices=real_np.zeros((n, 3)))
+            assoc = "VERTEX"
+        else:       # n counts the cells: the data are attached to the cells of a curve / surface
+            from geoh5py.objects import Curve, Surface
+            w = 2 if kind == "curve" else 3
+            cls = Curve if kind == "curve" else Surface
+            obj = cls.create(ws, vertices=real_np.zeros((n + w, 3)),
+                             cells=real_np.c_[[real_np.arange(n) + a for a in range(w)]].T.astype("int32"))
+            assoc = "CELL"
         if dk == "float":
-            d = obj.add_data({"d": {"values": real_np.zeros(n), "association": "VERTEX"}})
+            d = obj.add_data({"d": {"values": real_np.zeros(n), "association": assoc}})
         else:
-            d = obj.add_data({"d": {"values": real_np.zeros(n, dtype="int32"), "association": "VERTEX",
+            d = obj.add_data({"d": {"values": real_np.zeros(n, dtype="int32"), "association": assoc,
                                     "type": "integer"}})
         patch.detach(ws, obj, d)
         with self.engine(cx) as X:
@@ -190,7 +199,6 @@ class AssignValues(Scenario):
             try:
                 d.values = arr
             except Exception as e:  # noqa: BLE001
-                cx.prove(L > n, "only longer arrays are refused", "refusal")
                 cx.prove(shape(d.values)[0] == n, "after refusal the stored values still have one entry per vertex",
                          "after-failure consistency")
                 return f"raised {type(e).__name__}"
@@ -220,6 +228,9 @@ def scenarios(tier, seed):
         for L in (0, 2, 3, 4):
             S.append(AssignValues(kind="points", n=3, L=L, dkind="float"))
             S.append(AssignValues(kind="points", n=3, L=L, dkind="int"))
+        for L in (1, 2, 3):
+            S.append(AssignValues(kind="curve", n=2, L=L, dkind="float"))
+        S.append(AssignValues(kind="surface", n=2, L=3, dkind="int"))
     else:
         S += [RemoveVertices(kind="points", n=5, m=0, k=3),
               RemoveVertices(kind="points", n=3, m=0, k=2, as_array=True),
@@ -235,6 +246,11 @@ def scenarios(tier, seed):
             for L in range(0, n + 2):
                 S.append(AssignValues(kind="points", n=n, L=L, dkind="float"))
                 S.append(AssignValues(kind="points", n=n, L=L, dkind="int"))
+        for kind in ("curve", "surface"):
+            for n in (1, 3):
+                for L in range(0, n + 2):
+                    S.append(AssignValues(kind=kind, n=n, L=L, dkind="float"))
+                    S.append(AssignValues(kind=kind, n=n, L=L, dkind="int"))
     return S
 
 
